@@ -31,6 +31,9 @@ func fmapSeqIssues(rs *Resid, fn *ast.FuncDecl) []sideIssue {
 	f, seq := names[0], names[1]
 	l := newListFn(rs, fn)
 	if l.loop == nil {
+		if l.forSt != nil {
+			return []sideIssue{{fn, "the elements are visited with a hand-written for loop instead of `range`: outside the rule's vocabulary (index/width arithmetic is not decided), so nothing is claimed for this form", "loop-form-undecided", ""}}
+		}
 		return []sideIssue{{fn, "no element loop", "no-loop", ""}}
 	}
 	ranged := l.x(l.loop.X)
@@ -224,6 +227,7 @@ func runR_C17(c *Ctx) {
 	sweepHealth(c, "fmap", "join")
 	rR1(c, "fmap", "join")
 	rR2(c, "fmap", "join")
+	rConstIndex(c, "fmap", "join")
 	counts := map[string]int{}
 	for _, rs := range c.acceptedResids("fmap") {
 		if rs.Err != nil || len(rs.Funcs) != 1 {
